@@ -1,4 +1,4 @@
-(* BMM.v -- the plan parsers of cotengra/contract.py as executable functions that
+(* BMM.v -- the plan parsers of cotengra/contract.py (as of /repo 23dce6e) as executable functions that
    return the same plan tuples as the Python:
      _sanitize_equation, _parse_einsum_single, _parse_eq_to_pure_multiplication,
      _parse_eq_to_batch_matmul, _parse_tensordot_axes_to_matmul.
@@ -303,15 +303,18 @@ Definition parse_bmm_terms (a_term : str) (shape_a : list nat) (b_term : str) (s
     end
   end.
 
-(* _parse_eq_to_batch_matmul(eq, shape_a, shape_b): no sanitising, plain splits *)
-Definition parse_bmm (eq : str) (shape_a shape_b : list nat) : option bmm_plan :=
-  match split_on ARROW eq with
-  | [lhs; out] =>
-    match split_on COMMA lhs with
-    | [a_term; b_term] => parse_bmm_terms a_term shape_a b_term shape_b out
-    | _ => None
-    end
+(* _parse_eq_to_batch_matmul(eq, shape_a, shape_b):
+     lhs, out = _sanitize_equation(eq)        (blanks removed, implicit output computed)
+     a_term, b_term = lhs.split(",")           (exactly one comma, else ValueError) *)
+Definition parse_bmm_split (lhs out : str) (shape_a shape_b : list nat) : option bmm_plan :=
+  match split_on COMMA lhs with
+  | [a_term; b_term] => parse_bmm_terms a_term shape_a b_term shape_b out
   | _ => None
+  end.
+Definition parse_bmm (eq : str) (shape_a shape_b : list nat) : option bmm_plan :=
+  match sanitize eq with
+  | Some (lhs, out) => parse_bmm_split lhs out shape_a shape_b
+  | None => None
   end.
 
 (* ------------------------------------------------------------------ *)
@@ -368,13 +371,10 @@ Fixpoint tdot_loop (axes_a axes_b : list Z) (shape_a shape_b : list nat) (inds_a
 Definition zrange (lo hi : Z) : list Z :=
   map (fun k => (lo + Z.of_nat k)%Z) (seq 0 (Z.to_nat (hi - lo))).
 
-Definition tdot_equation (axes : axes_spec) (shape_a shape_b : list nat) : option str :=
+(* the part of the function after `axes_a, axes_b` have been fixed *)
+Definition tdot_equation_axes (axes_a axes_b : list Z) (shape_a shape_b : list nat) : option str :=
   let ndim_a := length shape_a in
   let ndim_b := length shape_b in
-  let '(axes_a, axes_b) := match axes with
-                           | AxInt n => (zrange (Z.of_nat ndim_a - Z.of_nat n) (Z.of_nat ndim_a), zrange 0 (Z.of_nat n))
-                           | AxPair xa xb => (xa, xb)
-                           end in
   if negb (Nat.eqb (length axes_a) (length axes_b)) then None
   else
     let inds_a := seq SYM0 ndim_a in
@@ -382,6 +382,19 @@ Definition tdot_equation (axes : axes_spec) (shape_a shape_b : list nat) : optio
     | None => None
     | Some (inds_b, inds_out) => Some (inds_a ++ [COMMA] ++ inds_b ++ [ARROW] ++ inds_out)
     end.
+
+(* `ax + ndim if ax < 0 else ax` : negative axes count from the end (pair form only) *)
+Definition norm_axis (ndim : nat) (ax : Z) : Z :=
+  if (ax <? 0)%Z then (ax + Z.of_nat ndim)%Z else ax.
+
+Definition tdot_equation (axes : axes_spec) (shape_a shape_b : list nat) : option str :=
+  let ndim_a := length shape_a in
+  let ndim_b := length shape_b in
+  match axes with
+  | AxInt n => tdot_equation_axes (zrange (Z.of_nat ndim_a - Z.of_nat n) (Z.of_nat ndim_a))
+                                  (zrange 0 (Z.of_nat n)) shape_a shape_b
+  | AxPair xa xb => tdot_equation_axes (map (norm_axis ndim_a) xa) (map (norm_axis ndim_b) xb) shape_a shape_b
+  end.
 
 Definition parse_tdot (axes : axes_spec) (shape_a shape_b : list nat) : option bmm_plan :=
   match tdot_equation axes shape_a shape_b with
